@@ -252,6 +252,8 @@ struct GenState {
     shapes: Vec<String>,
     /// generic functions over `Some['t] | None`
     generics: Vec<String>,
+    /// processes: (variable, 0 = spawned and waiting for its message, 1 = message sent / finished)
+    procs: Vec<(String, u8)>,
     /// modules an ACCEPTED step has imported so far
     seen_modules: Vec<&'static str>,
     /// modules whose first import in the session sat in a compile-REJECTED line
@@ -263,7 +265,7 @@ struct GenState {
     feats: Vec<&'static str>,
 }
 
-const MODS: [&str; 6] = ["num", "list", "str", "int", "m", "m2"];
+const MODS: [&str; 7] = ["num", "list", "str", "int", "m", "m2", "m3"];
 
 /// An accepted step that uses module `m` and binds `v`; returns (source, binds an int).
 fn use_module(m: &str, v: &str, a: &str, b: &str, k: u64) -> (String, bool) {
@@ -273,6 +275,7 @@ fn use_module(m: &str, v: &str, a: &str, b: &str, k: u64) -> (String, bool) {
         "str" => (format!("{v} = \"ab{k}\" %str.length"), true),
         "int" => (format!("{v} = [{a}, {b}] %int.and"), true),
         "m2" => (format!("{v} = {a} %m2.g"), true),
+        "m3" => (format!("{v} = [%m3.a, {a} %m3.f] %m3.add"), true),
         _ => (format!("{v} = [%m.a, {a}] %m.add"), true),
     }
 }
@@ -285,6 +288,7 @@ fn reject_with_module(m: &str, a: &str) -> String {
         "str" => "\"q\" %str.length nosuch_zz".to_string(),
         "int" => format!("[{a}, 2] %int.and nosuch_zz"),
         "m2" => format!("[{a} %m2.g, missing_zz] __integer_add__"),
+        "m3" => format!("[{a} %m3.f, missing_zz] %m3.add"),
         _ => format!("[{a} %m.f, missing_zz] __integer_add__"),
     }
 }
@@ -300,7 +304,15 @@ fn gen_step(r: &mut Rng, g: &mut GenState) -> Step {
         g.last_is_int = false;
         return Step::Ok(format!("{v} = {}", r.range(1, 50)));
     }
-    match r.below(38) {
+    // a process waiting for its message / holding a result attracts the next steps
+    let forced: Option<u64> = if g.procs.iter().any(|p| p.1 == 0) && r.chance(1, 3) {
+        Some(40)
+    } else if g.procs.iter().any(|p| p.1 == 1) && r.chance(1, 4) {
+        Some(42)
+    } else {
+        None
+    };
+    match forced.unwrap_or_else(|| r.below(46)) {
         0 => {
             let v = fresh(g, "a");
             g.ints.push(v.clone());
@@ -523,6 +535,60 @@ fn gen_step(r: &mut Rng, g: &mut GenState) -> Step {
                 _ => format!("None {f}"),
             })
         }
+        38 | 39 => {
+            // spawn a process that sleeps (waiting for one message) across the following lines
+            let v = fresh(g, "p");
+            let s = format!("{v} = @{{ !'int [~, {}] __integer_add__ }}", r.pick(&g.ints));
+            g.procs.push((v, 0));
+            g.last_is_int = false;
+            g.feats.push("spawn-process");
+            Step::Ok(s)
+        }
+        40 | 41 if g.procs.iter().any(|p| p.1 == 0) => {
+            // message to a process spawned on an earlier step
+            let i = g.procs.iter().position(|p| p.1 == 0).unwrap();
+            g.procs[i].1 = 1;
+            g.last_is_int = false;
+            g.feats.push("send-to-earlier-process");
+            Step::Ok(format!("{} {}", r.pick(&g.ints), g.procs[i].0))
+        }
+        42 | 43 if g.procs.iter().any(|p| p.1 == 1) => {
+            // await a process from an earlier step (possibly awaited before: the result is kept)
+            let done: Vec<&(String, u8)> = g.procs.iter().filter(|p| p.1 == 1).collect();
+            let v = r.pick(&done).0.clone();
+            g.last_is_int = true;
+            g.feats.push("await-earlier-process");
+            if r.chance(1, 2) {
+                let w = fresh(g, "a");
+                g.ints.push(w.clone());
+                g.last_is_int = false;
+                Step::Ok(format!("{w} = !{v}"))
+            } else {
+                Step::Ok(format!("!{v}"))
+            }
+        }
+        44 => {
+            // a line that is only an import (value or function value)
+            let m: &'static str = *r.pick(&["m", "m2", "m3"]);
+            if !g.seen_modules.contains(&m) {
+                g.seen_modules.push(m);
+            }
+            g.feats.push("import-only-line");
+            match m {
+                "m2" => {
+                    g.last_is_int = true;
+                    Step::Ok("%m2.k".to_string())
+                }
+                "m3" => {
+                    g.last_is_int = false;
+                    Step::Ok("&%m3.f".to_string())
+                }
+                _ => {
+                    g.last_is_int = true;
+                    Step::Ok("%m.a".to_string())
+                }
+            }
+        }
         21 if !g.fns.is_empty() => {
             // a named tail call OUTSIDE any function: must behave like an ordinary call (F50)
             g.last_is_int = true;
@@ -572,6 +638,10 @@ const MODULE_M: &str = "m_a = 7,\nm_f = #'int { [~, m_a] __integer_multiply__ },
 
 const MODULE_M2: &str = "k = 3,\ng = #'int { [[~, k] __integer_add__, k] __integer_multiply__ },\n[k: k, g: &g]";
 
+/// same export shape as `%m` (labels a, f, add) with different contents: a stale cache entry of one
+/// resolves to something plausible-looking in the other
+const MODULE_M3: &str = "m_a = 11,\nm_f = #'int { [~, m_a] __integer_subtract__ },\n[a: m_a, f: &m_f, add: &__integer_multiply__]";
+
 // ---- one session -----------------------------------------------------------------------------------
 
 fn violation(ev: &mut Ev, kind: &str, what: String, replay: serde_json::Value, found: bool) {
@@ -602,11 +672,17 @@ thread_local! {
 
 fn run_session(ev: &mut Ev, model: &mut Model, si: u64, seed: u64) {
     let mut r = Rng::for_case(seed, si);
-    let mut g = GenState { ints: vec![], pts: vec![], fns: vec![], pairs: vec![], nilary: vec![], unions: vec![], shapes: vec![], generics: vec![], seen_modules: vec![], poisoned: vec![], mods: if r.chance(1, 5) { MODS.to_vec() } else { vec!["m", "m2"] }, last_is_int: false, k: 0, feats: vec![] };
+    let mut g = GenState { ints: vec![], pts: vec![], fns: vec![], pairs: vec![], nilary: vec![], unions: vec![], shapes: vec![], generics: vec![], procs: vec![], seen_modules: vec![], poisoned: vec![], mods: if r.chance(1, 5) { MODS.to_vec() } else { vec!["m", "m2", "m3"] }, last_is_int: false, k: 0, feats: vec![] };
     let n_steps = 3 + r.usize(10);
     let mut steps: Vec<Step> = vec![];
     for _ in 0..n_steps {
         steps.push(gen_step(&mut r, &mut g));
+    }
+    if r.chance(1, 3) && !g.ints.is_empty() {
+        // the session ends with a nil-valued step (a failing match)
+        let a = r.pick(&g.ints).clone();
+        steps.push(Step::Ok(format!("{a} =987654321")));
+        g.feats.push("nil-valued-final-step");
     }
     for f in &g.feats {
         ev.hit(&format!("gen:{f}"));
@@ -645,6 +721,7 @@ fn run_lines(ev: &mut Ev, model: &mut Model, si: u64, lines: Vec<Step>, r: &mut 
     let mut modules = HashMap::new();
     modules.insert(vec!["m".to_string()], MODULE_M.to_string());
     modules.insert(vec!["m2".to_string()], MODULE_M2.to_string());
+    modules.insert(vec!["m3".to_string()], MODULE_M3.to_string());
     let workers = 1 + r.usize(2);
     let random_schedule = r.chance(1, 2);
     let mut sim = Sim::new(workers, None, qverif::run::builtins(), true).with_repl(modules.clone());
@@ -659,6 +736,8 @@ fn run_lines(ev: &mut Ev, model: &mut Model, si: u64, lines: Vec<Step>, r: &mut 
     // (line, result) of every accepted line and whether a compile-rejected line was seen — for the twin session
     let mut history: Vec<(String, LineResult)> = vec![];
     let mut saw_compile_rejected = false;
+    // module ids committed by accepted lines (what the model's `moduleCache` must hold)
+    let mut expected_cache: Vec<String> = vec![];
     let mut prev = observe(&mut sim);
     let mut transcript: Vec<serde_json::Value> = vec![];
     let replay = |lines: &Vec<Step>, transcript: &Vec<serde_json::Value>| json!({"lines": lines.iter().map(|l| format!("{l:?}")).collect::<Vec<_>>(), "workers": workers, "random_schedule": random_schedule, "transcript": transcript});
@@ -720,7 +799,12 @@ fn run_lines(ev: &mut Ev, model: &mut Model, si: u64, lines: Vec<Step>, r: &mut 
                     ev.hit("checked:unexpected-rejection-vs-one-program");
                 }
                 // ---- rejected line: observationally a no-op ----
-                let model_ans = model.ask(if matches!(res, LineResult::ParseError) { "(line parse-error)" } else { "(line compile-error)" });
+                let model_ans = if matches!(res, LineResult::ParseError) {
+                    model.ask("(line parse-error)")
+                } else {
+                    model.ask(&format!("(line compile-error {})", mods_in(&src).join(" ")))
+                };
+                check_cache(ev, si, li, &src, &model_ans, &expected_cache);
                 if obs.order != prev.order || obs.value != prev.value {
                     violation(ev, "rejected-line-changed-variables",
                         format!("session {si} line {li} `{src}` was rejected but variables changed: {:?} → {:?}", prev.value, obs.value),
@@ -742,7 +826,13 @@ fn run_lines(ev: &mut Ev, model: &mut Model, si: u64, lines: Vec<Step>, r: &mut 
             }
             (_, LineResult::NoCode) => {
                 let b: Vec<String> = obs.index.iter().map(|(n, i)| format!("({n} {i})")).collect();
-                let model_ans = model.ask(&format!("(line no-code {})", b.join(" ")));
+                let model_ans = model.ask(&format!("(line no-code (bindings {}) (imports {}))", b.join(" "), mods_in(&src).join(" ")));
+                for m in mods_in(&src) {
+                    if !expected_cache.contains(&m) {
+                        expected_cache.push(m);
+                    }
+                }
+                check_cache(ev, si, li, &src, &model_ans, &expected_cache);
                 if obs.value != prev.value {
                     violation(ev, "alias-line-changed-variables", format!("session {si} line {li} `{src}`: a type-alias line changed variables"), replay(&lines, &transcript), true);
                 }
@@ -779,12 +869,19 @@ fn run_lines(ev: &mut Ev, model: &mut Model, si: u64, lines: Vec<Step>, r: &mut 
                 let appended: Vec<String> = obs.locals.iter().skip(n_before).map(|s| tok(s)).collect();
                 let b: Vec<String> = obs.index.iter().map(|(n, i)| format!("({n} {i})")).collect();
                 let model_ans = model.ask(&format!(
-                    "(line ran (bindings {}) (appended {}) (result {} {}))",
+                    "(line ran (bindings {}) (appended {}) (result {} {}) (imports {}))",
                     b.join(" "),
                     appended.join(" "),
                     tok(v),
-                    tok(&obs.last_ty)
+                    tok(&obs.last_ty),
+                    mods_in(&src).join(" ")
                 ));
+                for m in mods_in(&src) {
+                    if !expected_cache.contains(&m) {
+                        expected_cache.push(m);
+                    }
+                }
+                check_cache(ev, si, li, &src, &model_ans, &expected_cache);
                 compare_with_model(ev, si, li, &src, &model_ans, &obs, &lines, &transcript, &replay);
                 // ---- oracle: the accepted steps as ONE program ----
                 let joined = join_program(&accepted);
@@ -795,7 +892,13 @@ fn run_lines(ev: &mut Ev, model: &mut Model, si: u64, lines: Vec<Step>, r: &mut 
                         format!("session {si} line {li} `{src}`: REPL gives {v} but the lines as one program give {one:?}"),
                         replay(&lines, &transcript), true);
                 }
-                if !obs.order.is_empty() {
+                let nil_line = v == "t(_;)";
+                if nil_line {
+                    // a nil-valued line: the one program short-circuits here, so the variables cannot be read
+                    // from it; the session must still hold every earlier variable (checked below) and ends
+                    ev.hit("checked:nil-valued-line");
+                }
+                if !obs.order.is_empty() && !nil_line {
                     let refs: Vec<String> = obs.order.iter().map(|n| format!("&{n}")).collect();
                     let all = eval_one(&format!("{joined},\n[{}, 0]", refs.join(", ")), &modules);
                     let expect = format!(
@@ -836,7 +939,12 @@ fn run_lines(ev: &mut Ev, model: &mut Model, si: u64, lines: Vec<Step>, r: &mut 
                 return;
             }
         }
+        let ended_by_nil = matches!(&res, LineResult::Value(x) if x == "t(_;)");
         prev = obs;
+        if ended_by_nil {
+            ev.hit("session-ended:nil-valued-line");
+            break;
+        }
         if DIVERGED.with(|d| d.replace(false)) {
             ev.hit("session-ended:diverged-by-known-finding");
             ev.case(&(si, "diverged"), true);
@@ -880,6 +988,30 @@ fn qualify(kind: &str, alias_since_value: bool, src: &str) -> String {
     if alias_since_value && uses_previous { format!("previous-result-type-lost-after-type-only-line:{kind}") } else { kind.to_string() }
 }
 
+/// Modules a line mentions (`%name`, `'%name`), in order of first mention.
+fn mods_in(src: &str) -> Vec<String> {
+    let mut out: Vec<String> = vec![];
+    let b: Vec<char> = src.chars().collect();
+    let mut i = 0;
+    while i < b.len() {
+        if b[i] == '%' {
+            let mut j = i + 1;
+            let mut name = String::new();
+            while j < b.len() && (b[j].is_ascii_alphanumeric() || b[j] == '_' || b[j] == '/') {
+                name.push(b[j]);
+                j += 1;
+            }
+            if !name.is_empty() && !out.contains(&name) {
+                out.push(name);
+            }
+            i = j;
+        } else {
+            i += 1;
+        }
+    }
+    out
+}
+
 fn join_program(steps: &[String]) -> String {
     // Type aliases are hoisted to the front (they are transparent to the flow). The parser rejects
     // an alias that FOLLOWS an expression step (`a = 1\n't = 'int\nb = 2` → parse error), although
@@ -897,6 +1029,25 @@ fn join_program(steps: &[String]) -> String {
         }
     }
     out
+}
+
+/// The model's module cache holds exactly the modules of the accepted lines (a rejected line's imports
+/// are rolled back: `C11.rejected_line_keeps_module_cache`).
+fn check_cache(ev: &mut Ev, si: u64, li: usize, src: &str, ans: &str, expected: &[String]) {
+    let mc: Vec<String> = ans
+        .split_whitespace()
+        .find_map(|p| p.strip_prefix("mc="))
+        .map(|m| m.split(',').filter(|x| !x.is_empty()).map(|x| x.to_string()).collect())
+        .unwrap_or_default();
+    if mc != expected {
+        ev.violation(
+            "repl kind=module-cache-differs-from-model",
+            &format!("session {si} line {li} `{src}`: model module cache {mc:?} vs modules of the accepted lines {expected:?}"),
+            json!({"broken": "M-Repl module cache bookkeeping (C11.rejected_line_keeps_module_cache)", "model": mc, "expected": expected}),
+            false,
+        );
+    }
+    ev.hit("checked:module-cache");
 }
 
 #[allow(clippy::too_many_arguments)]
